@@ -45,7 +45,8 @@ import (
 //	S  confidential -> confidential spend (key image + outputs) + account -> confidential; needs an earlier O
 //	E  one transfer + DuplicateVoteEvidence (evidence database)
 //	V  one transfer + validator-set change (fixture seam Options.ValidatorsAt: the candidate contracts are not deployed)
-//	C  (thorough) contract creation / call: flat mode commits two tries (storage, accounts) = two undo-log appends
+//	C  contract storage: the first C block of a history creates a three-slot contract and fills two slots, every later C block
+//	   calls it (overwrites one slot, creates one, clears one); flat mode commits two tries (storage, accounts) = two undo-log appends
 const kindsQuick = "TOSEV"
 const kindsThorough = "TOSEVC"
 
@@ -97,17 +98,17 @@ func histories(alphabet string, maxLen int) []string {
 
 // crashCases is a deterministic function of the tier.
 //
-//	quick:    every valid history (S needs an earlier O) of 1-3 blocks over {T,O,S,E,V}; both modes; process-crash
-//	          model (torn appends cut at the structural offsets of the record format)
+//	quick:    every valid history (S needs an earlier O) of 1-3 blocks over {T,O,S,E,V}, plus the histories with the
+//	          contract kind C of 1-2 blocks and those of 3 blocks with at least two C blocks (the second C block writes the
+//	          storage of a contract that exists since an earlier block); both modes; process-crash model (torn appends cut
+//	          at the structural offsets of the record format)
 //	thorough: every valid history of 1-3 blocks over {T,O,S,E,V,C}; both modes; process-crash model with EVERY torn
 //	          offset, and the power-loss model
 func crashCases(quick bool) []crashCase {
 	hs := histories(kindsQuick, 3)
-	if !quick {
-		for _, h := range histories(kindsThorough, 3) {
-			if strings.ContainsRune(h, 'C') {
-				hs = append(hs, h)
-			}
+	for _, h := range histories(kindsThorough, 3) {
+		if n := strings.Count(h, "C"); n > 0 && (!quick || len(h) <= 2 || n >= 2) {
+			hs = append(hs, h)
 		}
 	}
 	if only := os.Getenv("C13_HIST"); only != "" { // debugging aid: restrict the histories (the run reports itself as capped)
@@ -326,6 +327,7 @@ type builder struct {
 	led   *txkit.Ledger
 	nonce map[*txkit.Account]uint64
 	store common.Address
+	calls int
 }
 
 func (b *builder) n(a *txkit.Account) uint64 {
@@ -377,13 +379,25 @@ func (b *builder) block(kind byte, k uint64) (types.Txs, []types.Evidence) {
 	case 'V':
 		return types.Txs{txkit.Transfer(A, b.n(A), B.Addr, txkit.LKC(1))}, nil
 	case 'C':
+		// contract with three storage slots: sstore(0, calldata[0:32]); sstore(1, calldata[32:64]); sstore(2, calldata[64:96]).
+		// First C block of a history: creation + a call that fills slots 0 and 2. Every later C block calls the contract that
+		// exists since an earlier block and OVERWRITES one slot, CREATES one and CLEARS one (slots 1 and 2 alternate).
+		word := func(v int64) []byte { return txkit.Word(big.NewInt(v)) }
+		args := func(s0, s1, s2 int64) []byte { return append(append(word(s0), word(s1)...), word(s2)...) }
 		if b.store == (common.Address{}) {
-			init := txkit.StoreContract()
+			init := txkit.Deploy(nil, []byte{0x60, 0x00, 0x35, 0x60, 0x00, 0x55, 0x60, 0x20, 0x35, 0x60, 0x01, 0x55, 0x60, 0x40, 0x35, 0x60, 0x02, 0x55, 0x00})
 			nonce := b.n(A)
 			b.store = txkit.ContractAddress(A.Addr, nonce, init)
-			return types.Txs{txkit.Create(A, nonce, init, nil), txkit.Transfer(B, b.n(B), C.Addr, txkit.LKC(1))}, nil
+			b.calls = 0
+			return types.Txs{txkit.Create(A, nonce, init, nil), txkit.Call(A, b.n(A), b.store, nil, args(100+int64(k), 0, 300+int64(k))),
+				txkit.Transfer(B, b.n(B), C.Addr, txkit.LKC(1))}, nil
 		}
-		return types.Txs{txkit.Call(A, b.n(A), b.store, nil, txkit.Word(new(big.Int).Lsh(big.NewInt(1), uint(k)))), txkit.Transfer(B, b.n(B), C.Addr, txkit.LKC(1))}, nil
+		b.calls++
+		s1, s2 := int64(200+k), int64(0) // slot 1 created, slot 2 cleared
+		if b.calls%2 == 0 {
+			s1, s2 = 0, int64(300+k) // slot 1 cleared, slot 2 created
+		}
+		return types.Txs{txkit.Call(A, b.n(A), b.store, nil, args(100+int64(k), s1, s2)), txkit.Transfer(B, b.n(B), C.Addr, txkit.LKC(1))}, nil
 	}
 	harnessErr("crash: unknown block kind %c", kind)
 	return nil, nil
@@ -457,6 +471,11 @@ func runHistory(cc crashCase, scratch string) *world {
 		for j, r := range rs {
 			if r.Status != types.ReceiptStatusSuccessful {
 				harnessErr("crash %s: block %d tx %d failed", cc, k, j)
+			}
+		}
+		if cc.Hist[i] == 'C' { // non-vacuity: the contract exists and holds exactly two slots (one was created, one cleared)
+			if acc, ok := c.AllAccounts()[b.store]; !ok || len(acc.Storage) != 2 {
+				harnessErr("crash %s: block %d: contract storage has %d slots, expected 2 (account found: %v)", cc, k, len(acc.Storage), ok)
 			}
 		}
 		w.hashes = append(w.hashes, blk.Hash())
